@@ -1488,6 +1488,49 @@ class Interp:
             return {"starts_with": b.startswith(xb), "ends_with": b.endswith(xb), "contains": xb in b}[m]
         if gen in ("alloc::string::String::new", "alloc::string::String::with_capacity"):
             return ""
+        if gen in ("alloc::string::String::is_empty", "alloc::string::String::truncate", "alloc::string::String::clear", "alloc::string::String::pop",
+                   "core::str::<impl str>::trim_end_matches", "core::str::<impl str>::trim_start_matches", "core::str::<impl str>::trim_matches"):
+            cur = self.ev(args[0], env, depth)
+            target = cur if isinstance(cur, Ref) else None
+            v = cur.get() if isinstance(cur, Ref) else cur
+            if not isinstance(v, str):
+                raise Unknown("%s on %r" % (short(gen), v))
+            m = short(gen)
+            if m == "is_empty":
+                return v == ""
+            if m in ("truncate", "clear", "pop"):
+                if target is None:
+                    raise Unknown("String::%s on a value that is not a place" % m)
+                if m == "clear":
+                    target.set("")
+                    return ()
+                if m == "pop":
+                    target.set(v[:-1])
+                    return Enum("Option", "Some", {"0": ord(v[-1])}) if v else Enum("Option", "None")
+                n_ = self.ev(args[1], env, depth)
+                b_ = v.encode("utf-8")
+                if not isinstance(n_, int):
+                    raise Unknown("truncate(%r)" % (n_,))
+                if n_ <= len(b_):
+                    try:
+                        target.set(b_[:n_].decode("utf-8"))
+                    except UnicodeDecodeError:
+                        raise Unknown("core::panicking: truncate(%d) is not on a char boundary" % n_)
+                return ()
+            pat = self.ev(args[1], env, depth)
+            pat = pat.get() if isinstance(pat, Ref) else pat
+            if isinstance(pat, int) and not isinstance(pat, bool):
+                pat = chr(pat)
+            if not isinstance(pat, str) or pat == "":
+                raise Unknown("%s with pattern %r" % (m, pat))
+            r_ = v
+            if m in ("trim_end_matches", "trim_matches"):
+                while r_.endswith(pat):
+                    r_ = r_[:len(r_) - len(pat)]
+            if m in ("trim_start_matches", "trim_matches"):
+                while r_.startswith(pat):
+                    r_ = r_[len(pat):]
+            return r_
         if gen in ("alloc::string::String::push", "alloc::string::String::push_str"):
             cur = self.ev(args[0], env, depth)
             target = cur if isinstance(cur, Ref) else None
@@ -1579,6 +1622,7 @@ class Interp:
             raise Unknown("chars of %r" % (v,))
         if gen in ("alloc::string::String::len", "core::str::<impl str>::len"):
             v = self.ev(args[0], env, depth)
+            v = v.get() if isinstance(v, Ref) else v
             if isinstance(v, str):
                 return len(v.encode("utf-8"))
             raise Unknown("len of %r" % (v,))
@@ -1798,6 +1842,13 @@ class Interp:
             new_ = self.ev(args[1], env, depth) if gen.endswith("replace") else self.default_of((e.get("ty") or ""), depth)
             import copy as _c
             keep = _c.copy(old) if isinstance(old, list) else old
+            if isinstance(old, HMap) and not isinstance(tgt, Ref) and isinstance(new_, HMap):
+                keep = HMap()               # a map behind `&mut`: hand out the contents, leave the caller's map with the new ones
+                keep.keys, keep.vals = list(old.keys), dict(old.vals)
+                old.keys[:] = list(new_.keys)
+                old.vals.clear()
+                old.vals.update(new_.vals)
+                return keep
             if isinstance(tgt, Ref):
                 tgt.set(new_)
             elif isinstance(old, list) and isinstance(new_, list):
@@ -1975,6 +2026,25 @@ class Interp:
                 n = len(x)
                 return (list(base[:n]) == list(x)) if gen.endswith("starts_with") else (n == 0 or list(base[-n:]) == list(x))
             raise Unknown("starts_with on %r" % (base,))
+        if gen in ("core::ops::range::Range::<Idx>::contains", "core::ops::range::RangeInclusive::<Idx>::contains", "core::ops::range::RangeFrom::<Idx>::contains",
+                   "core::ops::range::RangeTo::<Idx>::contains", "core::ops::range::RangeToInclusive::<Idx>::contains"):
+            r = self.ev(args[0], env, depth)
+            x = self.ev(args[1], env, depth)
+            r = r.get() if isinstance(r, Ref) else r
+            x = x.get() if isinstance(x, Ref) else x
+
+            def num(v):
+                if isinstance(v, Enum) and len(v.fields) == 1 and isinstance(list(v.fields.values())[0], int):
+                    return list(v.fields.values())[0]         # a newtype over an integer with a derived ordering
+                return v
+            if isinstance(r, Enum) and r.adt.startswith("Range"):
+                lo, hi, xv = num(r.fields.get("start")), num(r.fields.get("end")), num(x)
+                if isinstance(xv, (int, float)) and all(v is None or isinstance(v, (int, float)) for v in (lo, hi)):
+                    ok = (lo is None or lo <= xv)
+                    if hi is not None:
+                        ok = ok and (xv <= hi if r.adt in ("RangeInclusive", "RangeToInclusive") else xv < hi)
+                    return ok
+            raise Unknown("Range::contains on %r" % (r,))
         if gen == "core::slice::<impl [T]>::contains":
             base = self.ev(args[0], env, depth)
             x = self.ev(args[1], env, depth)
@@ -2005,6 +2075,10 @@ class Interp:
                 return {"lt": a < b, "le": a <= b, "gt": a > b, "ge": a >= b}[gen[-2:]]
             if isinstance(a, str) and isinstance(b, str):
                 return {"lt": a < b, "le": a <= b, "gt": a > b, "ge": a >= b}[gen[-2:]]
+            if isinstance(a, Enum) and isinstance(b, Enum) and a.adt == b.adt and a.variant == b.variant and list(a.fields) == ["0"] == list(b.fields) \
+                    and all(isinstance(v.fields["0"], int) and not isinstance(v.fields["0"], bool) for v in (a, b)):
+                x, y = a.fields["0"], b.fields["0"]       # a newtype over an integer: the derived ordering is the integer's
+                return {"lt": x < y, "le": x <= y, "gt": x > y, "ge": x >= y}[gen[-2:]]
             if isinstance(a, Enum) and isinstance(b, Enum) and a.adt == b.adt and a.variant == b.variant and all(isinstance(v, (int, Enum)) and not isinstance(v, bool) for v in a.fields.values()):
                 try:
                     if a == b:      # a derived ordering is irreflexive on equal values
@@ -2100,6 +2174,9 @@ class Interp:
         if isinstance(c, PyClosure):
             return self.call_closure(c, vals, depth)
         if isinstance(c, PyFn):
+            for suf, fn_ in self.extern.items():      # a stand-in also answers when the function is passed as a value
+                if c.path.endswith(suf):
+                    return fn_(vals)
             body = self.facts.bodies.get(c.path)
             if body is not None and depth < self.max_depth:
                 return self.apply(body, vals, depth + 1)
